@@ -89,6 +89,15 @@ def generate(seed: int, tier: str) -> Dict[str, Any]:
             prog["calls"] = calls
             if r.chance(0.6):
                 raw.setdefault("t1", {})["cache"] = {"max_entries": r.choice([1, 2, 3]), "ttl_s": 300}
+        if r.chance(0.35):
+            # workers interleave line by line inside the graph store they share (a helper that memoises across calls must not
+            # mix graphs up); the result caches are off so that every call really propagates
+            prog["preempt_store"] = True
+            raw.setdefault("t1", {})["cache"] = {"enabled": False}
+            raw.pop("perf", None)
+            if not prog.get("calls"):
+                gids = sorted(world["graphs"])
+                prog["calls"] = [{"text": prog["texts"][0], "graphs": r.sample(gids, len(gids))} for _ in range(r.randint(2, 3))]
     else:
         world = E.gen_world(rng.stream("world"), n_agents=2, max_graphs=1, max_eps=12, odd_ids=False)
         while len(world["episodes"]) < 3:
@@ -134,15 +143,16 @@ def generate(seed: int, tier: str) -> Dict[str, Any]:
 
 # ---------------------------------------------------------------------------
 class _Seams:
-    def __init__(self, stream):
+    def __init__(self, stream, trace_files=()):
         self.stream = stream
+        self.trace_files = tuple(trace_files)
 
     def __enter__(self):
         self.saved = (upar.ThreadPoolExecutor, ecache.threading, SimExecutor.stream_factory, upar.as_completed)
         upar.ThreadPoolExecutor = SimExecutor  # type: ignore
         upar.as_completed = sim_as_completed  # type: ignore
         ecache.threading = ThreadingShim()  # type: ignore
-        self.sched = Sched(self.stream)
+        self.sched = Sched(self.stream, step_cap=400_000, trace_files=self.trace_files) if self.trace_files else Sched(self.stream)
         self.sched.__enter__()
         SimExecutor.created = 0
         return self.sched
@@ -215,7 +225,10 @@ def _stage_once(prog: Dict[str, Any], parallel: bool, stream) -> Tuple[List[Any]
     info: Dict[str, Any] = {}
     with Scratch() as root:
         with E.EngineEnv(root, clock) as ee:
-            with _Seams(stream) as sched:
+            # helpers every worker calls on the SHARED store are part of the schedule space: in the T1 programs marked so, each
+            # line of the graph store is a pre-emption point
+            tf = ("clematis/graph/store.py",) if (parallel and prog.get("preempt_store") and stream is not None) else ()
+            with _Seams(stream, tf) as sched:
                 cfg = E.make_cfg(raw)
                 state = E.build_state(prog["world"])
                 agent = prog.get("agent") or sorted(prog["world"]["agents"])[0]
